@@ -389,16 +389,21 @@ func (s *Scheduler) run(emitter Emitter, freq time.Duration) {
 	enqueuec := s.enqueuec
 
 	for {
-		// If there's at least one job ready to be executed, grab it.
-		// If no jobs are ready, this leaves `readyc` as nil. Trying
-		// to insert into a nil channel never resolves so the select
-		// will never pick that path.
+		// If there's at least one job ready to be executed and a
+		// worker is free, grab it. Otherwise, this leaves `readyc`
+		// as nil. Trying to insert into a nil channel never resolves
+		// so the select will never pick that path.
+		//
+		// Never have more than `concurrency` jobs outstanding: donec
+		// only has room for that many results, so workers holding
+		// anything beyond that would block forever on donec if the
+		// Scheduler Loop exits early.
 		readyc := s.readyc
 		var (
 			nextEl *list.Element
 			next   *ScheduledJob
 		)
-		if ready.Len() > 0 {
+		if ready.Len() > 0 && ongoing < s.concurrency {
 			nextEl = ready.Front()
 			next = nextEl.Value.(*ScheduledJob)
 		} else {
